@@ -335,10 +335,12 @@ var c17Check = core.Mon(c17, "string-builtins", func(w *core.W, c *StrFnCase) {
 
 var c17Strings = []string{"", "a", "ab", "abc", "abab", "aaa", "aaaa", "abcabc", "hello world", " x ", "\t a b \n", "中文", "é", "aé中z", "ABC", "MiXeD", "ÀÉ", "a,b,c", "(", "a.b", "  ", "xyzzy", "ß", "İ", "\xff", "a\xffb", " x ", "0", "12.5",
 	// format characters that are not white space (trim strips white space only) at the edges, alone and behind white space
+	"a\nb", "x\ny\n", "\n", "a\r\nb", "-7", "+12", "-7x", "-", "--7", "-0.5", "+", "007",
 	"\uFEFFid,name", "total\u200B", " \t\u200B \n", "\u2060x\u2060", "\u00ADa\u00AD", "\u200Bx", " \uFEFF", "\u180Ea", "a\u200D", "\u200E b \u200F", "\x00a\x00", "\x1fa\x7f", "\u0085"}
 
 var c17Patterns = []string{"a", "^a", "a$", "^a+$", "a*", "[ab]+", "a|b", "(ab)+", ".", "^$", "\\d+", "\\s", "[^a]", "a{2}", "a{2,}", "(", "[a", "*", "a{2,1}", "\\", "(?i)abc", "中", "^.b", "b?c", "(a)(b)?", "x*", "\\bworld\\b", "[a-c]{3}", "(?P<n>a)", "\\p{Han}+", "a**", "(?<x>a)",
 	// an unmatched closing parenthesis as the only syntax, brackets that are literals, slash-delimited lookalikes
+	"a.b", "^.*$", "^.$", "x.y.", ".+", "(?s)a.b", "(?m)^b$", "a\\nb", "[^a]b",
 	")", "a)", "total)", "())", "]", "}", "a]", "/a/", "/usr/", "/a/i", "/^a/m", "//", "/", "a/i"}
 
 // StrKindCase: the same text supplied by the caller as a defined type and as its underlying type.
@@ -459,7 +461,7 @@ func runC17(w *core.W) {
 			for m := -3; m <= len(s)+3; m++ {
 				run(&StrFnCase{Fn: "mid", S: s, N: n, M: m})
 			}
-			for _, p := range []string{"x", " ", "0", "-"} {
+			for _, p := range []string{"x", " ", "0", "-", "+", "7"} {
 				run(&StrFnCase{Fn: "lpad", S: s, T: p, N: n})
 				run(&StrFnCase{Fn: "rpad", S: s, T: p, N: n})
 			}
